@@ -10,7 +10,9 @@ import subprocess
 import sys
 from pathlib import Path
 
-SRC = Path("/tmp/mut/out")
+import os
+SRC = Path(os.environ.get("MUT_SRC", "/tmp/mut/out"))
+SCRATCH = Path(os.environ.get("MUT_SCRATCH", "/tmp/mut"))
 DST = Path("/verif/seeded")
 PY = "/venv/bin/python"
 
@@ -23,7 +25,7 @@ def sh(cmd, cwd=None, timeout=900):
 def main():
     only = sys.argv[1:]
     DST.mkdir(exist_ok=True)
-    clean = Path("/tmp/mut/confirm_clean")
+    clean = SCRATCH / "confirm_clean"
     if clean.exists():
         sh(f"git -C /repo worktree remove --force {clean}")
     sh(f"git -C /repo worktree add -q --detach {clean} HEAD")
@@ -38,7 +40,7 @@ def main():
                 out = DST / sid
                 if (out / "meta.json").exists():
                     continue
-                wt = Path(f"/tmp/mut/confirm_{sid}")
+                wt = SCRATCH / f"confirm_{sid}"
                 if wt.exists():
                     sh(f"git -C /repo worktree remove --force {wt}")
                 sh(f"git -C /repo worktree add -q --detach {wt} HEAD")
@@ -59,7 +61,7 @@ def main():
                     meta["demo_exit_unchanged"] = rc0
                     meta["demo_output_with_patch"] = o1[-600:]
                     meta["confirmed"] = bool(meta["patch_applies"] and meta["tests_unchanged"] and rc1 != 0 and rc0 == 0)
-                    notes = (vdir / "notes.md").read_text() if (vdir / "notes.md").exists() else ""
+                    notes = next(((vdir / n).read_text() for n in ("notes.md", "NOTES.md") if (vdir / n).exists()), "")
                     meta["needs_to_manifest"] = notes[:1500]
                     meta["ran"] = ["git apply patch.diff (scratch worktree)", "pytest -q -p no:cacheprovider --timeout=900", f"demo on patched worktree -> exit {rc1}", f"demo on unpatched worktree -> exit {rc0}"]
                     if meta["confirmed"]:
